@@ -448,10 +448,13 @@ class Program:
         rng = self.rng
         from ..sim.geom import enc
         li = rng.randrange(len(self.world["labware"]))
-        rack = rng.choice([self.world["labware"][li]["name"], "Systemliquid", "elsewhere"])
+        # (records written through the low-level emitters are not tracked by any labware: they only ever name racks
+        # that are not part of the world, so that the robot has nothing to execute for them)
+        free = "Systemliquid" if all(l["name"] != "Systemliquid" for l in self.world["labware"]) else "elsewhere"
+        rack = rng.choice([self.world["labware"][li]["name"], free, "elsewhere"])
         v = float(rng.choice([0.0, 1.5, 10.0, self.gen.wl_max]))
         if rng.random() < 0.5:
-            return {"op": rng.choice(["aspirate_well", "dispense_well"]), "rack": "elsewhere" if rack != "Systemliquid" else rack,
+            return {"op": rng.choice(["aspirate_well", "dispense_well"]), "rack": "elsewhere" if rack != free else rack,
                     "pos": rng.randint(1, 96), "volume": enc(v)}
         return {"op": "reagent_distribution", "src_rack": "elsewhere", "ss": 1, "se": 8, "dst_rack": "other", "ds": 1,
                 "de": rng.randint(1, 96), "volume": enc(max(v, 1.0)), "kw": {"multi_disp": rng.choice([1, 6, 12, 100])}}
